@@ -442,6 +442,7 @@ def run(chk, repo, tier):
     run_w8(chk, repo)
     run_w9(chk, repo)
     run_w10_w11(chk, repo)
+    run_w12(chk, repo)
 
 
 def run_more(chk, repo):
@@ -552,6 +553,31 @@ def run_w9(chk, repo):
                                       witness='(a + b) followed by a non-commutative join task: it gets q(B)|p(A) instead of '
                                               'p(A)|q(B)')
             del other
+            # merging in place: the other graph's nodes must enter (in their own order) before its edges do, otherwise the
+            # nodes enter in edge-traversal order and isolated tasks last
+            ecalls = [c for c in calls_in(f.node) if isinstance(c.func, ast.Attribute) and c.func.attr == 'add_edges_from'
+                      and c.args and unparse(c.args[0]).endswith(('.edges', '.edges()'))]
+            if ecalls:
+                fcfg = CFG(f.node)
+                for c in ecalls:
+                    recv = unparse(c.func.value)
+                    src = unparse(c.args[0]).rsplit('.edges', 1)[0]
+                    n += 1
+                    cn = next((nd for nd in fcfg.nodes.values() if nd.ast is not None and nd.kind == 'stmt'
+                               and any(x is c for x in ast.walk(nd.ast))), None)
+                    ncalls = [nd for nd in fcfg.nodes.values() if nd.ast is not None and nd.kind == 'stmt' and any(
+                        isinstance(x, ast.Call) and isinstance(x.func, ast.Attribute) and x.func.attr == 'add_nodes_from'
+                        and unparse(x.func.value) == recv and x.args
+                        and unparse(x.args[0]) in (src, src + '.nodes', src + '.nodes()') for x in ast.walk(nd.ast))]
+                    ok = cn is not None and any(fcfg.dominates(nd.id, cn.id) and nd.id != cn.id for nd in ncalls)
+                    chk.instance(W9, f'{c_.name}.{name}: {unparse(c)[:60]}: nodes of {src} added before: {ok}')
+                    if not ok:
+                        chk.violation(W9, wm.rel, f.qualname, unparse(c)[:100],
+                                      f'the edges of {src} are added to {recv} before its nodes: the tasks enter in the order '
+                                      f'the edges visit them (isolated tasks last), not in the order they were declared, and '
+                                      f'predecessor results follow that order', line=c.lineno,
+                                      witness='insert a workflow x, y, z(x), w(y, z) with a non-commutative w: it is called as '
+                                              'w(z, y)')
     if n < 1:
         raise AnalysisError('W9: no graph composition found in workflow.py')
 
@@ -638,3 +664,28 @@ def run_w10_w11(chk, repo):
     if not raises:
         chk.violation(W11, wm.rel, iw.qualname, 'no raise for N:M', 'an unsupported N:M insertion is not refused',
                       line=iw.node.lineno, witness='insert a workflow with 3 inputs after 2 tasks')
+
+
+def run_w12(chk, repo):
+    """a Task is a node of the workflow graph: two tasks that were built alike are two nodes. That is the case as long as
+    tasks compare by identity, i.e. neither Task nor a base class inside the package defines __eq__ / __hash__"""
+    W12 = chk.rule('W12', 'Task is compared by identity (no __eq__ / __hash__ in Task or its bases): tasks built alike stay '
+                          'separate nodes of the graph', floor=1)
+    tm = repo.module('pharmpy.workflows.task')
+    tc = tm.classes.get('Task')
+    if tc is None:
+        raise AnalysisError('W12: class Task not found')
+    for k in repo.mro(tc):
+        defs = [m for m in ('__eq__', '__hash__') if dict.__contains__(k.methods, m)]
+        # a class-level `__eq__ = ...` / dataclass(eq=True) counts as well
+        assigned = [t.id for s_ in k.node.body if isinstance(s_, ast.Assign) for t in s_.targets
+                    if isinstance(t, ast.Name) and t.id in ('__eq__', '__hash__')]
+        deco = [unparse(d) for d in k.node.decorator_list if 'dataclass' in unparse(d) and 'eq=False' not in unparse(d)]
+        chk.instance(W12, f'{k.name}: defines {defs + assigned + deco or "no comparison"}')
+        for what in defs + assigned + deco:
+            node = k.methods[what].node if what in defs else k.node
+            chk.violation(W12, k.module.rel, f'{k.name}.{what}' if what in defs else k.name, what,
+                          'tasks that compare equal are one node of the networkx graph: add_task / insert_workflow / compose '
+                          'silently merge replicate tasks built in a loop', line=node.lineno,
+                          witness='wb.add_task(Task("rep", f, 20)) three times plus a collector: the builder holds one task, '
+                                  'the result is (20,) instead of (20, 20, 20)')
